@@ -46,7 +46,7 @@ CLAIMED = {
              "pin is reachable and that the flag allows; the returned list is that set), `survivors_untouched`, "
              "`consistent_preserved`, `inputs_false_keeps_inputs`, `idempotent`, `order_irrelevant` — unbounded, by a loop "
              "invariant. The model's type lists are regenerated from circuit.py each run; the model is tied to the code by "
-             "comparing the removal order and the resulting graph on generated circuits under controlled set orders.",
+             "comparing the removal order and the resulting graph on generated circuits under controlled set orders. Cyclic circuits (Props/C16Cyclic.lean): `remove_unloaded_exact_cyclic` — on every legally wired circuit, cyclic or not, the call deletes exactly the complement of the greatest self-sustaining set (a node survives iff it is an output, a protected kind or drives a survivor); `kept_iff_live_of_acyclic` (agrees with the property on acyclic circuits); `dead_cycle_kept` (the K42 witness).",
         note=TRUST + " Hypothesis `Good`: acyclic, no fan-in on inputs/blackbox outputs, no fan-out from blackbox inputs.",
         ref="§4 C16"),
     "C01": dict(
@@ -76,7 +76,7 @@ CLAIMED = {
              "stages for which the call succeeds: original nodes keep type and output mark, outputs unchanged, the only new "
              "input is the clock, every instance is the `ff` flop, and with every inserted flop passing d to q the result "
              "and the original have the same consistent valuations on the original nodes, both directions); "
-             "`acyclic_unroll_of_acyclic` (same inputs/outputs and the same function at every output).",
+             "`acyclic_unroll_of_acyclic` (same inputs/outputs and the same function at every output). Total correctness (Props/C05Ok.lean): `insert_registers_ok_fixed` / `_ok_acyclic` (the call succeeds when a stage boundary exists, no node is typed bb_input and the flop pin names are free), `insert_registers_depths_ok`; the first formulation is refuted (`insert_registers_ok_false`).",
         note=TRUST + " Hypothesis `hname`: nodes that must be split have names `add` accepts (not digit-leading) — the code raises "
              "ValueError otherwise (witness in the Lean file).",
         ref="§4 C05"),
@@ -115,7 +115,7 @@ CLAIMED = {
              "`strip_blackboxes_spec` (every kept input pin becomes an output buffer `inst_pin` driven as the pin was, every "
              "kept output pin a primary input `inst_pin`, ignored pins are gone, all other nodes and the wiring between "
              "surviving nodes unchanged, consistent valuations correspond on all surviving nodes, for every ignore list and "
-             "order), `strip_blackboxes_rejects_overlap` (colliding exposed names are an error, never a merge).",
+             "order), `strip_blackboxes_rejects_overlap` (colliding exposed names are an error, never a merge). Total correctness (Props/C06Ok.lean): `strip_blackboxes_ok_iff` — the call succeeds exactly when no exposed pin name is taken and no two kept pins share one.",
         note=TRUST + " Proof-forced hypothesis `hfb` (machine-checked counterexample in CG/Proofs/C06Cex.lean): an output "
              "connection must not feed back into a non-input node of the spliced child itself.",
         ref="§4 C06"),
@@ -170,7 +170,10 @@ CLAIMED = {
              "add_flop_outputs / ignore_pins / remove_unloaded choice and order); `sequential_unroll_dict_sem` / "
              "`sequential_unroll_dict_complete` / `sequential_unroll_dict_ok` (the same for a per-flop initial-value dict: "
              "the listed flops start at their values, the others are free; the call succeeds whenever it does without "
-             "initial values).",
+             "initial values). Total correctness (Props/C09Ok.lean): `unroll_ok_iff` — under Good, Pairing and n >= 1 the call "
+             "succeeds EXACTLY when no output is a stray pin-typed node and the per-step io names (as `uid` really makes them) "
+             "are pairwise distinct and differ from every `unrolled_<k>_<node>`; `unroll_ok_fresh`, `unroll_ioName`, and "
+             "counterexample theorems for each condition.",
         note=TRUST + " The hypothesis the proof of `unroll_inputs` had forced (no state output is itself an input) was a genuine "
              "defect, repaired in /repo (K33); the theorem now holds without it (regression example CG/Proofs/UnrollCex.lean). "
              "`sequential_unroll_*` assume `SeqGood` (one flop type, pins present, no pin marked as output), data pins not "
@@ -185,7 +188,7 @@ CLAIMED = {
              "`fas_only_cycle_edges`, `acyclic_unroll_shape` (acyclic, lint-clean, same outputs, inputs = original inputs + one "
              "auxiliary input per feedback node), `stable_state_preserved` (for every stable state, setting the auxiliary inputs "
              "to the stable values makes every output equal its stable value), `stable_state_realised`, "
-             "`acyclic_unroll_rejects_blackboxes` — all circuits without self-loops, all orders.",
+             "`acyclic_unroll_rejects_blackboxes` — all circuits without self-loops, all orders. Total correctness (Props/C18Ok.lean): `acyclic_unroll_ok_io` — the call succeeds for every good circuit with addable, dot-free names, no `bb_output`-typed node, no `bb_input`-typed output and no input/output named like a synthesised name; each hypothesis is shown necessary by a closed counterexample (`acyclic_unroll_ok_needs_*`).",
         note=TRUST + " `stable_state_preserved` needs no `x` constants. The proof exposed a collision introduced by an earlier "
              "repair (output named like a copy node), since repaired again (see KNOWN_FINDINGS).",
         ref="§4 C18"),
@@ -220,20 +223,25 @@ CLAIMED = {
         note=TRUST + " CPython `re` is modelled by CG/Regex.lean.",
         ref="§4 C15"),
     "C17": dict(
-        technique="Lean 4 verified checker: `supergatesOK` (decidable) proved sound AND complete w.r.t. the graph-theoretic "
-                  "statement; the driver evaluates it on the implementation's actual supergate list for every generated circuit; "
-                  "+ independent Python oracle and super-circuit simulation",
-        text="PARTIAL by design: no for-all-circuits theorem about the decomposition algorithm (dominator trees on a bidirected "
-             "copy of each cone, minimal cover). Proof: `supergatesOK_sound` / `supergatesOK_complete`: "
-             "for every circuit and every list, the checker accepts exactly when every supergate is a single-output induced "
-             "sub-circuit of the fan-in-limited circuit, the list is topologically ordered, covers every gate of the output "
-             "cones and no two inputs of a supergate share transitive fan-in. Each run validates the real tx.supergates output "
-             "with this checker (translation validation with a proved checker) and checks the filled super-circuit by "
-             "exhaustive simulation. The algorithm itself is modelled (CG/SupergatesAlgo.lean: cone digraph, immediate "
-             "dominators from their definition, supergate growth along the dominator tree, de-duplication, minimal cover, "
-             "dependency cycle test) and run by the driver against the real function on every case (same set of supergates "
-             "with the same heads, same NetworkXUnfeasible verdict); no theorem is claimed about it.",
-        note=TRUST + " Known finding K28 (NetworkXUnfeasible on some multi-output circuits).",
+        technique="Lean 4 theorems about an executable model of the tx.supergates algorithm (dominator theory over the "
+                  "bidirected cone: every topological listing of its result satisfies the whole statement) + a verified checker "
+                  "(`supergatesOK` sound AND complete w.r.t. the statement) evaluated on the implementation's actual output + "
+                  "algorithm-model vs implementation correspondence + independent Python oracle and super-circuit simulation",
+        text="Proof: `algo_spec_fixed` — for every lint-clean, blackbox-free, acyclic circuit with fan-in <= 2 (what "
+             "limit_fanin(c, 2) returns) without stray `bb_output`-typed nodes in the output cones, whenever the minimal "
+             "supergates have distinct heads, EVERY topological listing of what the modelled algorithm returns satisfies the "
+             "statement: single-output sub-circuits with exactly the circuit's wiring, inputs with pairwise disjoint transitive "
+             "fan-in, topological order, cover of every gate in the output cones; clause-wise `algo_single`, `algo_induced`, "
+             "`algo_independent`, `algo_cover_fixed`; `algo_spec_hbo_necessary` and two counterexample theorems show the added "
+             "hypothesis is exactly what was missing. `supergatesOK_sound` / `supergatesOK_complete`: the decidable checker "
+             "accepts exactly the lists satisfying the statement; each run validates the real tx.supergates output with it and "
+             "checks the filled super-circuit by exhaustive simulation. The algorithm model (immediate dominators from their "
+             "definition) is compared with the real function on every generated circuit (same set of supergates and heads, "
+             "same NetworkXUnfeasible verdict). PARTIAL: the order among independent supergates depends on id()-hashed sets "
+             "and is quantified over (every topological listing), not reproduced; networkx's immediate_dominators is trusted "
+             "to implement its definition; the super-circuit (construct_supercircuit=True) is search-only.",
+        note=TRUST + " Known finding K28 (NetworkXUnfeasible on some multi-output circuits: no topological listing exists, "
+             "so `algo_spec_fixed` is vacuous there and says so).",
         ref="§4 C17"),
     "C19": dict(
         technique="Lean 4 theorems (soundness of a flow-sensitive ownership/alias analysis w.r.t. a cell-and-version heap "
@@ -315,7 +323,7 @@ CLAIMED = {
              "flipping it flips n, divisor 2^|startpoints|), `influence_ok` (never fails, under the name hypotheses its "
              "three counterexample theorems show necessary), `avg_sensitivity_spec` (sum of the counts = sum over all "
              "valuations of the size of the flip set). The results of all five analyses are additionally compared with the "
-             "models run on the proved DPLL solver. Not modelled: approx mode and the supergates mode of influence.",
+             "models run on the proved DPLL solver. Not modelled: approx mode and the supergates mode of influence. Total correctness (Props/C11Ok.lean): `sensitization_transform_ok`, `sensitivity_transform_ok'` (the calls succeed under explicit name-freshness hypotheses on the startpoints, each clause refuted without it by a closed counterexample).",
         note=TRUST + " `Good`: lint-clean, blackbox-free, no `x` constants; `sensitivity_spec` and `avg_sensitivity_spec` "
              "additionally acyclic; float division/summation of the Python results is outside the model (counts are exact).",
         ref="§4 C11"),
@@ -332,7 +340,7 @@ CLAIMED = {
              "transfer), `fast_lint_clean`, `tables_regex_fast`, `tables_primitive`. Partial: the theorem is at statement "
              "level (`RMod.toFParsed` = what the regular expressions deliver, `RMod.toModule` = what the grammar delivers); "
              "that the real regexes / lark deliver exactly these for every legal layout is tied by the differential run "
-             "(regex engine vs CPython `re` on the extracted patterns, text -> circuit exact) only.",
+             "(regex engine vs CPython `re` on the extracted patterns, text -> circuit exact) only. Text level (Props/C14Text.lean): `read_written_text` — on the text circuit_to_verilog emits, the module-extraction regular expression of the full reader (run by the regex engine) returns the whole module, so `read` is `parseNetlist` of that text; the corresponding theorem for the fast parser's regular expressions is in progress.",
         note=TRUST + " `Restricted`: every net an input or driven at most once (floating wires allowed since the K38 "
              "repair), declared outputs driven, unary gates have one operand, named ports of a known blackbox, names not "
              "colliding with either parser's constant nodes.",
